@@ -46,6 +46,7 @@ class Rig:
         lib.reset_library()
         self.chooser = chooser or Chooser()
         self.loop = VLoop(self.chooser, window=window, timer_choice=timer_choice)
+        self.loop.batch_choices_enabled = window > 0  # timers due together may also run as one asyncio batch
         self.net = VNet(self.loop)
         self.peer = (ModelSpa if model else SimPeer)(snapshot)
         self.net.add_peer(SPA_ADDR, self.peer)
